@@ -32,6 +32,8 @@ const (
 	dexBalance = uint64(1) << 38
 )
 
+const capWeakest = 50 // points of the weakest filler provider in cap mode
+
 var dexReserves = []uint64{1_000_000, 1, 2, 1 << 63, ^uint64(0) - (1 << 41), 50_000_000_000}
 
 func dexUser(i int) crypto.PrivateKeyI { return keys.Ed(10 + i) }
@@ -85,9 +87,16 @@ func newDexPair(t interface{ Fatalf(string, ...any) }, rootPool, nestedPool uint
 		// the ledger a pool has after its first deposits: the permanent dead-address entry plus providers, identical on both chains
 		pts = []*lib.PoolPoints{{Address: deadAddress, Points: 1000}, {Address: chainsim.Addr(dexUser(0)), Points: 1000}, {Address: chainsim.Addr(dexUser(1)), Points: 3000}}
 		total = 5000
-		if ptsMode > 1 {
+		if ptsMode == 2 {
 			pts = append(pts, &lib.PoolPoints{Address: chainsim.Addr(dexUser(2)), Points: 7})
 			total += 7
+		}
+		// cap mode: ptsMode = number of providers (lib.MaxLiquidityProviders or one less): filler providers with deterministic
+		// addresses and small distinct balances; the weakest holds capWeakest points
+		for i := 0; len(pts) < ptsMode && ptsMode > 2; i++ {
+			pp := &lib.PoolPoints{Address: crypto.Hash([]byte(fmt.Sprintf("verif-lp-%d", i)))[:20], Points: capWeakest + uint64(i)}
+			pts = append(pts, pp)
+			total += pp.Points
 		}
 	}
 	clone := func() []*lib.PoolPoints {
@@ -127,11 +136,19 @@ func estimate(x, y, dX uint64) uint64 {
 }
 
 // genTx draws one user transaction for side s (ownPool / otherPool: current real reserves, to aim requested amounts at the price).
-func genTx(t *rapid.T, s dexSide, ownPool, otherPool uint64) *dexTx {
+func genTx(t *rapid.T, s dexSide, ownPool, otherPool uint64, capAround uint64) *dexTx {
 	x := &dexTx{user: rapid.IntRange(0, dexUsers-1).Draw(t, "user")}
 	addr := chainsim.Addr(dexUser(x.user))
 	var msg lib.MessageI
-	switch k := rapid.IntRange(0, 9).Draw(t, "txKind"); {
+	k := rapid.IntRange(0, 9).Draw(t, "txKind")
+	if capAround != 0 && k < 6 {
+		k = 5 // cap mode: mostly deposits, mostly by users without points, amounts around the weakest provider's worth
+		if rapid.IntRange(0, 4).Draw(t, "newcomer") < 4 {
+			x.user = rapid.IntRange(2, dexUsers-1).Draw(t, "newcomerWho")
+			addr = chainsim.Addr(dexUser(x.user))
+		}
+	}
+	switch {
 	case k < 5:
 		x.kind = "order"
 		x.amount = []uint64{1000, 100_000, 1, 2, 1_000_000_000, 37, dexBalance / 2}[rapid.IntRange(0, 6).Draw(t, "orderAmt")]
@@ -158,6 +175,9 @@ func genTx(t *rapid.T, s dexSide, ownPool, otherPool uint64) *dexTx {
 	case k < 7:
 		x.kind = "deposit"
 		x.amount = []uint64{1000, 1_000_000, 1, 1_000_000_000, 12345}[rapid.IntRange(0, 4).Draw(t, "depAmt")]
+		if capAround != 0 {
+			x.amount = []uint64{capAround, capAround/2 + 1, capAround + capAround/8 + 1, capAround * 3, capAround/40 + 1, capAround * 40}[rapid.IntRange(0, 5).Draw(t, "capAmt")]
+		}
 		msg = &fsm.MessageDexLiquidityDeposit{ChainId: s.counter, Amount: x.amount, Address: addr}
 		x.desc = fmt.Sprintf("deposit u%d %d", x.user, x.amount)
 	default:
@@ -176,6 +196,21 @@ func genTx(t *rapid.T, s dexSide, ownPool, otherPool uint64) *dexTx {
 	}
 	x.raw, x.id = raw, crypto.Hash(raw)[:20]
 	return x
+}
+
+// splitDeposit: in cap mode a depositor often makes a second (smaller) deposit in the same batch.
+func splitDeposit(t *rapid.T, s dexSide, x *dexTx, capMode bool) *dexTx {
+	if !capMode || x.kind != "deposit" || rapid.IntRange(0, 2).Draw(t, "secondDeposit") == 0 {
+		return nil
+	}
+	y := &dexTx{kind: "deposit", user: x.user, amount: x.amount/uint64(rapid.IntRange(2, 9).Draw(t, "splitBy")) + 1}
+	raw, _, err := s.c.SignTx(dexUser(y.user), &fsm.MessageDexLiquidityDeposit{ChainId: s.counter, Amount: y.amount, Address: chainsim.Addr(dexUser(y.user))}, 0, s.c.Height(), "")
+	if err != nil {
+		t.Fatalf("sign: %v", err)
+	}
+	y.raw, y.id = raw, crypto.Hash(raw)[:20]
+	y.desc = fmt.Sprintf("deposit u%d %d", y.user, y.amount)
+	return y
 }
 
 func dexEvents(evs []*lib.Event, ref string) []*lib.Event {
@@ -213,18 +248,26 @@ func (dc *dexCase) afterBlock(s dexSide, h uint64, pre, post *chainsim.RawState,
 			debits.add(chainsim.Addr(dexUser(x.user)), u(x.amount))
 		}
 	}
+	// every tracked user, and every other address the replay credited (evicted providers)
+	addrs := map[string]string{}
 	for i := 0; i < dexUsers; i++ {
-		a := chainsim.Addr(dexUser(i))
-		k := lib.BytesToString(a)
-		want := new(big.Int).Set(u(pre.Account(a)))
+		addrs[lib.BytesToString(chainsim.Addr(dexUser(i)))] = fmt.Sprintf("u%d", i)
+	}
+	for k := range credits {
+		if addrs[k] == "" {
+			addrs[k] = k[:8]
+		}
+	}
+	for k, name := range addrs {
+		want := new(big.Int).Set(u(pre.Accounts[k]))
 		if credits[k] != nil {
 			want.Add(want, credits[k])
 		}
 		if debits[k] != nil {
 			want.Sub(want, debits[k])
 		}
-		if got := u(post.Account(a)); got.Cmp(want) != 0 {
-			return fmt.Errorf("chain %d h%d: account u%d = %s, expected %s (before %d, credits %v, debits %v)", s.self, h, i, got, want, pre.Account(a), credits[k], debits[k])
+		if got := u(post.Accounts[k]); got.Cmp(want) != 0 {
+			return fmt.Errorf("chain %d h%d: account %s = %s, expected %s (before %d, credits %v, debits %v)", s.self, h, name, got, want, pre.Accounts[k], credits[k], debits[k])
 		}
 	}
 	if err := checkDexInvariants(post, s.counter); err != nil {
@@ -265,8 +308,29 @@ func runDexCase(t *rapid.T, rec *ev.Rec, ec *ev.Case, mode dexMode) (nontrivial 
 	if rapid.IntRange(0, 3).Draw(t, "pointsPresent") > 0 && ptsMode == 0 {
 		ptsMode = 1
 	}
+	capMode := !mode.liveness && !mode.flood && rapid.IntRange(0, 5).Draw(t, "capMode") == 4
+	if capMode {
+		// the points ledger of both chains is full (or one slot short) from genesis
+		ptsMode = lib.MaxLiquidityProviders - rapid.IntRange(0, 1).Draw(t, "freeSlots")
+		rootPool = []uint64{50_000_000_000, 1_000_000, 1 << 63}[rapid.IntRange(0, 2).Draw(t, "capRootReserve")]
+		nestedPool = []uint64{50_000_000_000, 1_000_000, 1 << 63}[rapid.IntRange(0, 2).Draw(t, "capNestedReserve")]
+		ec.Class("provider-cap-mode")
+	}
 	tc := newDexPair(t, rootPool, nestedPool, ptsMode)
 	defer tc.Close()
+	// deposit that mints about as many points as the weakest provider holds: D ~ 2*x*weakest/T
+	around := func(pool uint64) uint64 {
+		if !capMode {
+			return 0
+		}
+		rs, _ := tc.Root.Raw()
+		T := rs.Pools[dexNested+fsm.LiquidityPoolAddend].TotalPoolPoints
+		v := new(big.Int).Div(new(big.Int).Mul(new(big.Int).Mul(u(pool), big.NewInt(2)), big.NewInt(capWeakest)), u(T))
+		if !v.IsUint64() || v.Uint64() > dexBalance/64 {
+			return dexBalance / 64
+		}
+		return v.Uint64() + 1
+	}
 	dc := &dexCase{tc: tc, or: newDexOracle(), nPoolAt: map[uint64]*big.Int{}}
 	rootS := dexSide{c: tc.Root, self: dexRoot, counter: dexNested}
 	nestS := dexSide{c: tc.Nested, self: dexNested, counter: dexRoot}
@@ -343,9 +407,16 @@ func runDexCase(t *rapid.T, rec *ev.Rec, ec *ev.Case, mode dexMode) (nontrivial 
 			var txs []*dexTx
 			var raws [][]byte
 			var ds []string
-			for i, n := 0, rapid.IntRange(0, 2).Draw(t, "nTxN"); i < n; i++ {
-				x := genTx(t, nestS, pre.PoolAmount(dexRoot+fsm.LiquidityPoolAddend), rpre.PoolAmount(dexNested+fsm.LiquidityPoolAddend))
+			maxTx := 2
+			if capMode {
+				maxTx = 4
+			}
+			for i, n := 0, rapid.IntRange(0, maxTx).Draw(t, "nTxN"); i < n; i++ {
+				x := genTx(t, nestS, pre.PoolAmount(dexRoot+fsm.LiquidityPoolAddend), rpre.PoolAmount(dexNested+fsm.LiquidityPoolAddend), around(pre.PoolAmount(dexRoot+fsm.LiquidityPoolAddend)))
 				txs, raws, ds = append(txs, x), append(raws, x.raw), append(ds, x.desc)
+				if y := splitDeposit(t, nestS, x, capMode); y != nil {
+					txs, raws, ds = append(txs, y), append(raws, y.raw), append(ds, y.desc)
+				}
 			}
 			if step == floodStep && !floodRoot {
 				for _, x := range flood(nestS, 0, 0) {
@@ -431,13 +502,20 @@ func runDexCase(t *rapid.T, rec *ev.Rec, ec *ev.Case, mode dexMode) (nontrivial 
 			var txs []*dexTx
 			var raws [][]byte
 			var ds []string
-			nTxR := rapid.IntRange(0, 2).Draw(t, "nTxR")
+			maxTx := 2
+			if capMode {
+				maxTx = 4
+			}
+			nTxR := rapid.IntRange(0, maxTx).Draw(t, "nTxR")
 			if mode.liveness && ev.Open(kfLiveness) && step >= silentFrom-3 && step < silentTo {
 				nTxR = 0 // open finding: keep the root's locked batch free of operations around the silent window (see kfLiveness)
 			}
 			for i, n := 0, nTxR; i < n; i++ {
-				x := genTx(t, rootS, pre.PoolAmount(dexNested+fsm.LiquidityPoolAddend), npre.PoolAmount(dexRoot+fsm.LiquidityPoolAddend))
+				x := genTx(t, rootS, pre.PoolAmount(dexNested+fsm.LiquidityPoolAddend), npre.PoolAmount(dexRoot+fsm.LiquidityPoolAddend), around(pre.PoolAmount(dexNested+fsm.LiquidityPoolAddend)))
 				txs, raws, ds = append(txs, x), append(raws, x.raw), append(ds, x.desc)
+				if y := splitDeposit(t, rootS, x, capMode); y != nil {
+					txs, raws, ds = append(txs, y), append(raws, y.raw), append(ds, y.desc)
+				}
 			}
 			if step == floodStep && floodRoot {
 				for _, x := range flood(rootS, 0, 0) {
@@ -538,6 +616,10 @@ func runDexCase(t *rapid.T, rec *ev.Rec, ec *ev.Case, mode dexMode) (nontrivial 
 	ec.ClassIf(delayed > 0, "certificate-delayed>=1")
 	ec.ClassIf(st.swapsCapped > 0, "orders-beyond-settlement-cap>=1")
 	ec.ClassIf(st.fallbacks > 0, "fallbacks>=1")
+	ec.ClassIf(st.capBatches > 0, "deposit-batch-at-provider-cap>=1")
+	ec.ClassIf(st.capRejected > 0, "newcomer-rejected-at-cap>=1")
+	ec.ClassIf(st.evictions > 0, "weakest-provider-evicted>=1")
+	ec.ClassIf(st.capRejectedMulti > 0, "rejected-newcomer-had-several-deposits>=1")
 	ec.Desc("=> round trips n=%d r=%d swaps ok=%d failed=%d withdrawals=%d deposits=%d", st.rotations[dexNested], st.rotations[dexRoot], st.swapsOK, st.swapsFailed, st.withdrawals, st.deposits)
 	return st.rotations[dexNested]+st.rotations[dexRoot] >= 2 && st.swapsOK > 0 && st.swapsFailed > 0 && st.withdrawals > 0, st
 }
